@@ -307,6 +307,16 @@ class Run:
                "model_output": model_output, "oracle_verdict": oracle, "minimised_from": minimised_from}
         self.violations.append(rep)
 
+    def glue(self, name, equal, example=None):
+        """correspondence of a helper / validation function that the model covers but the PROPERTY does not speak about: counted and
+        reported in the evidence (and as a NOTE line), never a verdict -- a harmless rewrite of such a function must not raise an alarm"""
+        g = self.extra.setdefault("glue_correspondences", {}).setdefault(name, {"compared": 0, "equal": 0, "disagreements": []})
+        g["compared"] += 1
+        if equal:
+            g["equal"] += 1
+        elif len(g["disagreements"]) < 3 and example is not None:
+            g["disagreements"].append(example)
+
     def corr_break(self, relation, entry_point, inp, impl_output, model_output, config=None):
         self.corr_breaks.append({"relation": relation, "entry_point": entry_point, "input": inp,
                                  "impl_output": impl_output, "model_output": model_output, "config": config or {}})
@@ -346,6 +356,10 @@ class Run:
                 path = self._write_replay(rep)
                 lines.append(f"VIOLATION property={self.prop} replay={path} no-failing-input-found")
                 nviol += 1
+        for name, g in (self.extra.get("glue_correspondences") or {}).items():
+            if g["compared"] != g["equal"]:
+                print(f"NOTE: property={self.prop} model coverage outside the property: {name}: {g['compared'] - g['equal']} of {g['compared']} "
+                      f"cases differ from the model (no verdict; details in the evidence file)")
         for sig, info in self.known_hits.items():
             print(f"KNOWN-FINDING: property={self.prop} {sig[0]}: {info['what']} ({info['count']} case(s) this run)")
         if not self.is_replay:      # a replay re-judges one recorded input; it is not a check run
